@@ -95,6 +95,7 @@ def _all():
         # ints
         _v("i_2", "2", ["int", "basic"]),
         _v("i_1", "1", ["int"]),
+        _v("i_0", "0", ["int"]),
         _v("i_neg", "-1", ["int"]),
         _v("i_2_31", "2**31", ["int"]),
         _v("i_2_63", "2**63", ["int"]),
@@ -106,6 +107,7 @@ def _all():
         _v("f_min", "5e-324", ["float"]),
         _v("f_negzero", "-0.0", ["float"]),
         _v("f_1", "1.0", ["float"]),
+        _v("f_0", "0.0", ["float"]),
         _v("f_long", "1.23456789", ["float"]),
         # bools
         _v("b_T", "True", ["bool", "basic"]),
@@ -140,6 +142,14 @@ def _all():
         QNameVal("q_prov", ("P", "Person", ("q", "prov"))),
         QNameVal("q_provPlan", ("P", "Plan", ("q", "prov"))),
         QNameVal("q_provRevision", ("P", "Revision", ("q", "prov"))),
+        QNameVal("q_provQuotation", ("P", "Quotation", ("q", "prov"))),
+        QNameVal("q_provPrimarySource", ("P", "PrimarySource", ("q", "prov"))),
+        QNameVal("q_provOrganization", ("P", "Organization", ("q", "prov"))),
+        QNameVal("q_provSoftwareAgent", ("P", "SoftwareAgent", ("q", "prov"))),
+        QNameVal("q_provCollection", ("P", "Collection", ("q", "prov"))),
+        QNameVal("q_provEmptyCollection", ("P", "EmptyCollection", ("q", "prov"))),
+        QNameVal("q_provBundle", ("P", "Bundle", ("q", "prov"))),
+        QNameVal("q_provEntity", ("P", "Entity", ("q", "prov"))),
     ]
     out = {}
     for v in vs + qn:
